@@ -55,3 +55,17 @@ GROUPS = [
  _g("sdo_getsize", "COSdoGetSize", "uint32_t r = COSdoGetSize(%s, H_A32, H_AB)" % SRVP, ["COObjGetSize", "COSdoAbort"],
     R("a", "r > 4") + R("b", "r == 0 && V_FRM.Data[4] == 0x13")),
 ]
+
+# ---- two SDO servers (CO_SSDO_N = 2): every step of server G_N (either one) leaves the other server untouched (C02, independence) ----
+import copy as _copy
+_N2 = []
+for _g0 in GROUPS:
+    if _g0.get("form") == "explicit" or _g0["name"] in ("sdo_response", "sdo_init", "sdo_getobject", "sdo_ul_blk_init"):
+        continue
+    _g2 = _copy.deepcopy(_g0)
+    _g2["name"] = _g0["name"] + "_N2"
+    _g2["defs"] = _g2["defs"] + ["CO_SSDO_N=2"]
+    _g2["props"] = {"C02": "thorough", "C01": "thorough", "C04": "thorough"}
+    _g2["timeout"] = 900
+    _N2.append(_g2)
+GROUPS += _N2
